@@ -460,11 +460,12 @@ def gaus(x, mu: float=None, std: float=None):
         plt.show()
     """
     x = np.array(x)
+    if x.dtype.kind in 'biu': x = x.astype(float) # integer samples: (x-mu)**2 would wrap around in the integer type
 
     if mu is None: mu = 0
     if std is None: std = 1
 
-    return 1/std/(2*pi)**0.5*np.exp(-0.5*(x-mu)**2/std**2)
+    return 1/std/(2*pi)**0.5*np.exp(-0.5*((x-mu)/std)**2)
 
 def Q(x):
     r"""
